@@ -412,7 +412,9 @@ func readHeader(in *io.Reader) (manifest []byte, mac []byte, err error) {
 		*in = io.MultiReader(bytes.NewReader(extraBytes), *in)
 	}
 
-	return manifest, mac, nil
+	// The manifest and MAC are slices of the pooled buffer, which is returned to the pool when this function exits and
+	// can then be handed to (and overwritten by) another caller: return copies
+	return bytes.Clone(manifest), bytes.Clone(mac), nil
 }
 
 func writeOrClosePipe(w *io.PipeWriter, b []byte) bool {
